@@ -9,7 +9,7 @@ def harnesses(tier):
         H.append(AHarness(name, 'c08_conc.cpp', None, threads=t, setup=setup, post=post, nsteps=n, unwind=inner, unwindset={'main.0': n + 1}, defs=dd, inline_all=True, timeout=timeout, native_replay=False, tiers=tiers, what=what,
                           bound=bound + '; all interleavings of the atomic operations within %d scheduled steps (longer spins assumed away); sequentially consistent atomics' % n))
     seq('P1_get_get', ['p1_t0', 'p1_t1'], 'p1_setup', 'p1_post', 20, 'get_free_element_safe || get_free_element_safe from an arbitrary valid pool state: never the same slot, occupancy counter == flags set == initial + successes, nobody refused when enough slots are free', 'pool of 3 slots, >=1 free, cursor arbitrary (wrap-around incl. SIZE_MAX), 2 threads')
-    seq('P1_get_get_get', ['p1_t0', 'p1_t1', 'p1_t2'], 'p1_setup', 'p1_post', 30, 'three concurrent getters on a 3-slot pool', 'pool of 3 slots, 3 threads', defs=['NTHR=3'], tiers=('thorough',), timeout=2400)
+    seq('P1_get_get_4slot', ['p1_t0', 'p1_t1'], 'p1_setup', 'p1_post', 24, 'two concurrent getters on a 4-slot pool (longer wrap-around scans than the 3-slot quick harness)', 'pool of 4 slots, >=1 free, cursor arbitrary', defs=['NSLOT=4'], tiers=('thorough',), timeout=1800)
     seq('P2_get_free', ['p2_t0', 'p2_t1'], 'p2_setup', 'p2_post', 18, 'get_free_element_safe || free_element(j): occupancy exact at quiescence, released slot available again, getter served when a slot was free', 'pool of 3 slots incl. full pool, j any held slot')
     seq('A1_increments', ['a1_inc0', 'a1_inc1'], 'a1_setup', 'a1_post', 6, 'pre_increment || post_add(3): no lost update, return values are the two possible linearisations', 'counter arbitrary 64-bit value (wrap included)')
     seq('A2_max', ['a2_max0', 'a2_max1'], 'a2_setup', 'a2_post', 10 if tier == 'quick' else 14, 'max(a) || max(b): final value is max(initial,a,b)', 'all 64-bit values; CAS retry loops within the step bound')
